@@ -1168,6 +1168,18 @@ func genAPIMode(r *rng, full bool) string {
 	g := &apiGen{r: r, full: full, fullF: true}
 	n := 5 + r.intn(30)
 	parts := []string{"api", "0"}
+	// half of the histories start with a unique index on the (still empty)
+	// main collection, so that duplicate-key failures of inserts, updates (also
+	// at the k-th of n matched documents), replaces and upserts are frequent
+	if r.chance(1, 2) {
+		f := pick(r, []string{"a", "a", "b"})
+		partial := "NIL"
+		if r.chance(1, 4) {
+			partial = enc(bson.D{{Key: "c", Value: g.scalar()}})
+		}
+		parts = append(parts, "(createIndex 0 "+hx(apiDbs[0])+" "+hx(apiColls[0])+" x "+enc(bson.D{{Key: f, Value: int32(1)}})+" T "+partial+" NIL)")
+		g.knownNames = append(g.knownNames, f+"_1")
+	}
 	for i := 0; i < n; i++ {
 		parts = append(parts, g.call())
 	}
